@@ -39,7 +39,7 @@ def floors(tier):
     return {"bf=0": 300, "bf=1": 300, "mode=GET": 200, "mode=SET": 100, "mode=POLL": 100,
             "count=0": 20, "count>=100": 5, "nested": 2, "variant": 20, "none-group": 20,
             "neg": 50, "scaled": 100, "after-failed-operation": 500, "via-reader": 1000,
-            "via-reader-after-twin": 300}
+            "via-reader-after-twin": 300, "byte-probe": 50000}
 
 
 def eligible(t):
@@ -121,6 +121,65 @@ def run_shard(spec, ctx, acc):
             core.hyp_search(acc, case_strategy(t, bf, ctx["tier"]), check,
                             seed=core.derive(ctx["seed"], PROP, t.label, t.clsid.hex(), bf),
                             max_examples=n, known=known, rounds=2, history=c13.related_history)
+            for nodes in byte_probes(t, ctx["tier"], ctx["seed"]):
+                case = {"kind": "layout", "mode": t.mode, "clsid": t.clsid, "defname": t.defname, "bf": bf,
+                        "nodes": nodes, "prelude": [], "via_reader": None}
+                o = check(case)
+                o.classes = list(o.classes) + ["byte-probe"]
+                if core.handle(acc, o, case, known) and len(acc.violations) >= core.MAX_VIOL_PER_SHARD:
+                    break
+
+
+def byte_probes(t, tier, seed):
+    """Deterministic cases: the nominal instance (every counted and variable group
+    with one member) with one payload byte at a time set to boundary patterns -
+    every field sees 01 / 7f / 80 / ff (thorough: all values in the first 48
+    bytes) in each of its bytes while all other fields are zero.  Bytes of repeat
+    counts and variant discriminators stay as they are."""
+    from vp.props import c16
+
+    nodes = c16.nominal_nodes(t)
+    p0 = G.encode(nodes)
+    if not p0 or not t.selects(p0):
+        return
+    guard = set(G.count_names(t.defn)) | set(catalog.forced_for(t) or {})
+    if t.kwrule is not None and len(t.kwrule) > 1 and isinstance(t.kwrule[1], str):
+        guard.add(t.kwrule[1])
+    protected = set()
+
+    def spans(ns, off):
+        for nd in ns:
+            if nd[0] == "f":
+                n = len(codec.enc_raw(nd[2], nd[4]))
+                if nd[1] in guard or nd[2] == "CH":
+                    protected.update(range(off, off + n))
+                off += n
+            elif nd[0] == "b":
+                n = codec.tsize(nd[2])
+                if nd[1] in guard or any(f[0] in guard for f in nd[3]):
+                    protected.update(range(off, off + n))
+                off += n
+            else:
+                for it in nd[2]:
+                    off = spans(it, off)
+        return off
+
+    spans(nodes, 0)
+    vals_q = [0x01, 0x7F, 0x80, 0xFF, (seed * 37 + len(p0)) & 0xFF]
+    pos = [p for p in range(len(p0)) if p not in protected]
+    if tier == "quick":
+        pos = pos[:96] + pos[96:][-16:]
+    else:
+        pos = pos[:600]
+    for p in pos:
+        for v in (vals_q if tier == "quick" or p >= 48 else range(256)):
+            if v == p0[p]:
+                continue
+            b = bytearray(p0)
+            b[p] = v
+            if not t.selects(bytes(b)):
+                continue
+            yield G.refill(nodes, bytes(b))[0]
 
 
 def check(case) -> core.Out:
